@@ -18,7 +18,10 @@ GoodHs == <<
   [t |-> "ServerHello", ver |-> 769, random |-> R32, sid |-> Some(<<9, 8, 7>>), cipher |-> 53,
                         comp |-> 0, ext |-> Some(<<>>)],
   [t |-> "Certificate", chain |-> << <<48, 1>>, <<>> >>],
-  [t |-> "NewSessionTicket", hint |-> <<1, 2>>, ticket |-> <<5>>] >>
+  [t |-> "NewSessionTicket", hint |-> <<1, 2>>, ticket |-> <<5>>],
+  [t |-> "CertificateRequest", types |-> <<1>>, sigalgs |-> None, cas |-> <<>>],                      \* the pre-TLS 1.2 form, minimal
+  [t |-> "CertificateRequest", types |-> <<1, 64>>, sigalgs |-> Some(<<1025>>), cas |-> << <<48, 0>> >>],
+  [t |-> "CertificateStatus", st |-> 1, blob |-> <<7>>], [t |-> "Finished", data |-> <<1, 2, 3>>] >>
 
 (* malformed, self-contained (consistent hl): bad wherever they stand *)
 BadAnywhere == <<
